@@ -33,7 +33,7 @@ theorem issues_finish {Q : Req → Prop} (l : Nat) (b : Bool) (hs : Q (.statusUp
   refine Issues.call _ _ hs ?_
   intro x; cases x <;> exact Issues.ret _
 
-theorem issues_renderFn {Q : Req → Prop} (hget : ∀ k n, Q (.getObj k n)) (hst : ∀ l, Q (.statusUpdate l))
+theorem issues_renderFn {Q : Req → Prop} (hget : ∀ k n, Q (.getCached k n)) (hst : ∀ l, Q (.statusUpdate l))
     (lrv : Nat) (obs : Obs) (k : List Named → P) (hk : ∀ ns, Issues Q (k ns)) :
     ∀ (ds : List Desired) (fresh : List String) (acc : List Named), Issues Q (renderFn lrv obs ds fresh acc k) := by
   intro ds
@@ -164,10 +164,11 @@ theorem observePure_some {objs : List CObj} {r : Ref} {o : CObj} (rs : List Ref)
 theorem emits_onError {Q : Req → Prop} (lrv : Nat) (hst : ∀ l, Q (.statusUpdate l)) (s : St) :
     Emits sem Q (onError lrv) s := (issues_onErrorO' _ (hst _)).emits s
 
-/-- Under every fault plan the observe loop either aborts or hands the pure observation of
-the store to its continuation; it issues reads only. -/
-theorem emits_observeFn {Q : Req → Prop} (hget : ∀ k n, Q (.getObj k n)) (hst : ∀ l, Q (.statusUpdate l))
-    (s : St) (lrv : Nat) (k : Obs → P) :
+/-- Under every fault plan and for every set of cache misses the observe loop either aborts or
+hands the pure observation of the store (`observePure`, which does not depend on the cache) to its
+continuation; it issues reads only. -/
+theorem emits_observeFn {Q : Req → Prop} (hget : ∀ k n, Q (.getObj k n)) (hgetc : ∀ k n, Q (.getCached k n))
+    (hst : ∀ l, Q (.statusUpdate l)) (s : St) (lrv : Nat) (k : Obs → P) :
     ∀ (rs : List Ref) (acc : Obs),
       (∀ obs, observePure s.objs rs acc = some obs → Emits sem Q (k obs) s) →
       Emits sem Q (observeFn lrv rs acc k) s := by
@@ -185,8 +186,8 @@ theorem emits_observeFn {Q : Req → Prop} (hget : ∀ k n, Q (.getObj k n)) (hs
       | none =>
         have hnone : Emits sem Q (observeFn lrv rs acc k) s :=
           ih acc (fun obs h => hk obs (by rw [observePure_none rs acc hn hf]; exact h))
-        simp only [Emits, sem, exec_getObj_none hf, isRead, if_true]
-        exact ⟨hget _ _, ⟨hget _ _, hnone, emits_onError _ hst _, emits_onError _ hst _⟩,
+        simp only [Emits, sem, exec_getCached_none hf, exec_getObj_none hf, isRead, if_true]
+        exact ⟨hgetc _ _, ⟨hget _ _, hnone, emits_onError _ hst _, emits_onError _ hst _⟩,
           emits_onError _ hst _, emits_onError _ hst _⟩
       | some o =>
         have hfound : Emits sem Q (if o.ctrl = .other then observeFn lrv rs acc k
@@ -199,8 +200,13 @@ theorem emits_observeFn {Q : Req → Prop} (hget : ∀ k n, Q (.getObj k n)) (hs
             by_cases ha : o.annot = ""
             · simp only [ha, if_true]; exact emits_onError _ hst _
             · simp only [ha, if_false] at hk' ⊢; exact ih _ hk'
-        simp only [Emits, sem, exec_getObj_some hf, isRead, if_true]
-        exact ⟨hget _ _, hfound, emits_onError _ hst _, emits_onError _ hst _⟩
+        by_cases hmiss : (⟨r.kind, r.name⟩ : Ref) ∈ s.miss
+        · -- missing from the cache: the live read finds it
+          simp only [Emits, sem, exec_getCached_miss hmiss, exec_getObj_some hf, isRead, if_true]
+          exact ⟨hgetc _ _, ⟨hget _ _, hfound, emits_onError _ hst _, emits_onError _ hst _⟩,
+            emits_onError _ hst _, emits_onError _ hst _⟩
+        · simp only [Emits, sem, exec_getCached_some hf hmiss, isRead, if_true]
+          exact ⟨hgetc _ _, hfound, emits_onError _ hst _, emits_onError _ hst _⟩
 
 /-- what being in the observation means -/
 structure ObservedAs (s : St) (a : String) (o : CObj) : Prop where
@@ -352,15 +358,16 @@ theorem emits_composeFn {Q : Req → Prop} (hQ : ∀ r, NoGc r → Q r) (out : O
     Emits sem Q (composeFn lrv refs out ch) s := by
   have hst : ∀ l, Q (.statusUpdate l) := fun _ => hQ _ trivial
   have hget : ∀ k n, Q (.getObj k n) := fun _ _ => hQ _ trivial
+  have hgetc : ∀ k n, Q (.getCached k n) := fun _ _ => hQ _ trivial
   rw [composeFn_eq]
-  apply emits_observeFn hget hst
+  apply emits_observeFn hget hgetc hst
   intro obs hobs
   apply Issues.emits
   cases ho : out obs with
   | failed => rw [composeTail_failed ho]; exact issues_onErrorO' _ (hst _)
   | desired ds =>
     rw [composeTail_desired ho]
-    apply issues_renderFn hget hst
+    apply issues_renderFn hgetc hst
     intro named
     exact issues_gcFn _ _ _ (hgc obs ds hobs ho) (hst _) (issues_afterGc hQ _ _ _)
 
@@ -414,8 +421,8 @@ theorem not_reached_onErrorO {C : Req → Prop} {l : Option Nat} {s : St} (hs : 
 theorem not_reached_onError {C : Req → Prop} {l : Nat} {s : St} (hs : ∀ l, ¬ C (.statusUpdate l)) :
     ¬ Reached C (onError l) s := not_reached_onErrorO (hs _)
 
-theorem reached_observeFn {C : Req → Prop} (hget : ∀ k n, ¬ C (.getObj k n)) (hst : ∀ l, ¬ C (.statusUpdate l))
-    (s : St) (lrv : Nat) (k : Obs → P) :
+theorem reached_observeFn {C : Req → Prop} (hget : ∀ k n, ¬ C (.getObj k n)) (hgetc : ∀ k n, ¬ C (.getCached k n))
+    (hst : ∀ l, ¬ C (.statusUpdate l)) (s : St) (lrv : Nat) (k : Obs → P) :
     ∀ (rs : List Ref) (acc : Obs), Reached C (observeFn lrv rs acc k) s →
       ∃ obs, observePure s.objs rs acc = some obs ∧ Reached C (k obs) s ∧
         ∀ r ∈ okApplied (k obs) s, r ∈ okApplied (observeFn lrv rs acc k) s := by
@@ -432,60 +439,58 @@ theorem reached_observeFn {C : Req → Prop} (hget : ∀ k n, ¬ C (.getObj k n)
       cases hf : findObj s.objs r.kind r.name with
       | none =>
         rw [observePure_none rs acc hn hf]
-        have h1 := reached_call (hget _ _) h
-        rw [exec_getObj_none hf] at h1
+        have h1 := reached_call (hgetc _ _) h
+        rw [exec_getCached_none hf] at h1
         have h2 := reached_call (hget _ _) h1
         rw [exec_getObj_none hf] at h2
         obtain ⟨obs, e, hr, hsub⟩ := ih acc h2
         refine ⟨obs, e, hr, ?_⟩
         intro x hx
-        rw [okApplied_call, exec_getObj_none hf]
+        rw [okApplied_call, exec_getCached_none hf]
         simp only []
         rw [okApplied_call, exec_getObj_none hf]
         exact List.mem_cons_of_mem _ (List.mem_cons_of_mem _ (hsub x hx))
       | some o =>
         rw [observePure_some rs acc hn hf]
-        have h1 := reached_call (hget _ _) h
-        rw [exec_getObj_some hf] at h1
-        simp only [] at h1
-        have step : ∀ (p : P), Reached C p s →
-            (Reached C p s → ∃ obs, (if o.ctrl = .other then observePure s.objs rs acc
-              else if o.annot = "" then none else observePure s.objs rs (obsInsert acc o.annot o)) = some obs ∧
-              Reached C (k obs) s ∧ ∀ x ∈ okApplied (k obs) s, x ∈ okApplied p s) →
-            p = (if o.ctrl = .other then observeFn lrv rs acc k
+        -- the continuation once the object has been read (from the cache, or live after a miss)
+        have hcont : ∀ (p : P), p = (if o.ctrl = .other then observeFn lrv rs acc k
               else if o.annot = "" then onError lrv else observeFn lrv rs (obsInsert acc o.annot o) k) →
+            Reached C p s →
             ∃ obs, (if o.ctrl = .other then observePure s.objs rs acc
               else if o.annot = "" then none else observePure s.objs rs (obsInsert acc o.annot o)) = some obs ∧
-              Reached C (k obs) s ∧ ∀ x ∈ okApplied (k obs) s,
-                x ∈ okApplied (Prog.call (Req.getObj r.kind r.name) fun
-                  | .found o =>
-                    if o.ctrl = .other then observeFn lrv rs acc k
-                    else if o.annot = "" then onError lrv else observeFn lrv rs (obsInsert acc o.annot o) k
-                  | .notFound => Prog.call (Req.getObj r.kind r.name) fun
-                    | .found o =>
-                      if o.ctrl = .other then observeFn lrv rs acc k
-                      else if o.annot = "" then onError lrv else observeFn lrv rs (obsInsert acc o.annot o) k
-                    | .notFound => observeFn lrv rs acc k
-                    | _ => onError lrv
-                  | _ => onError lrv) s := by
-          intro p hp himp he
-          obtain ⟨obs, e, hr, hsub⟩ := himp hp
+              Reached C (k obs) s ∧ ∀ x ∈ okApplied (k obs) s, x ∈ okApplied p s := by
+          intro p he h1
+          subst he
+          by_cases hc : o.ctrl = .other
+          · simp only [hc, if_true] at h1 ⊢; exact ih acc h1
+          · simp only [hc, if_false] at h1 ⊢
+            by_cases ha : o.annot = ""
+            · simp only [ha, if_true] at h1; exact absurd h1 (not_reached_onError hst)
+            · simp only [ha, if_false] at h1 ⊢; exact ih _ h1
+        by_cases hmiss : (⟨r.kind, r.name⟩ : Ref) ∈ s.miss
+        · have h1 := reached_call (hgetc _ _) h
+          rw [exec_getCached_miss hmiss] at h1
+          simp only [] at h1
+          have h2 := reached_call (hget _ _) h1
+          rw [exec_getObj_some hf] at h2
+          simp only [] at h2
+          obtain ⟨obs, e, hr, hsub⟩ := hcont _ rfl h2
           refine ⟨obs, e, hr, ?_⟩
           intro x hx
-          rw [okApplied_call, exec_getObj_some hf]
+          rw [okApplied_call, exec_getCached_miss hmiss]
           simp only []
-          rw [← he]
+          rw [okApplied_call, exec_getObj_some hf]
+          exact List.mem_cons_of_mem _ (List.mem_cons_of_mem _ (hsub x hx))
+        · have h1 := reached_call (hgetc _ _) h
+          rw [exec_getCached_some hf hmiss] at h1
+          simp only [] at h1
+          obtain ⟨obs, e, hr, hsub⟩ := hcont _ rfl h1
+          refine ⟨obs, e, hr, ?_⟩
+          intro x hx
+          rw [okApplied_call, exec_getCached_some hf hmiss]
           exact List.mem_cons_of_mem _ (hsub x hx)
-        refine step _ h1 ?_ rfl
-        intro h1
-        by_cases hc : o.ctrl = .other
-        · simp only [hc, if_true] at h1 ⊢; exact ih acc h1
-        · simp only [hc, if_false] at h1 ⊢
-          by_cases ha : o.annot = ""
-          · simp only [ha, if_true] at h1; exact absurd h1 (not_reached_onError hst)
-          · simp only [ha, if_false] at h1 ⊢; exact ih _ h1
 
-theorem reached_renderFn {C : Req → Prop} (hget : ∀ k n, ¬ C (.getObj k n)) (hst : ∀ l, ¬ C (.statusUpdate l))
+theorem reached_renderFn {C : Req → Prop} (hget : ∀ k n, ¬ C (.getCached k n)) (hst : ∀ l, ¬ C (.statusUpdate l))
     (s : St) (lrv : Nat) (obs : Obs) (k : List Named → P) :
     ∀ (ds : List Desired) (fresh : List String) (acc : List Named), Reached C (renderFn lrv obs ds fresh acc k) s →
       ∃ named, Reached C (k named) s ∧
@@ -507,18 +512,16 @@ theorem reached_renderFn {C : Req → Prop} (hget : ∀ k n, ¬ C (.getObj k n))
       | cons n fresh' =>
         simp only [renderFn, hl] at h ⊢
         have h1 := reached_call (hget _ _) h
-        cases hf : findObj s.objs d.kind n with
-        | some o =>
-          rw [exec_getObj_some hf] at h1
-          exact absurd h1 (not_reached_onError hst)
-        | none =>
-          rw [exec_getObj_none hf] at h1
+        rcases exec_getCached_resp s d.kind n with hf | ⟨o, _, hf⟩
+        · rw [hf] at h1
           simp only [] at h1
           obtain ⟨named, hr, hsub⟩ := ih _ _ h1
           refine ⟨named, hr, ?_⟩
           intro x hx
-          rw [okApplied_call, exec_getObj_none hf]
+          rw [okApplied_call, hf]
           exact List.mem_cons_of_mem _ (hsub x hx)
+        · rw [hf] at h1
+          exact absurd h1 (not_reached_onError hst)
 
 theorem exec_gcUpdate_resp (s : St) (k n : String) :
     (exec s (.gcUpdate k n)).2 = .ok ∨ (exec s (.gcUpdate k n)).2 = .notFound := by
